@@ -37,8 +37,10 @@ def gen_atom(r, buf, earlier):
         return ("r%d" if r.random() < 0.6 else "x%d") % r.choice(earlier)
     if u < 0.45:
         return "T"
-    if u < 0.58:
+    if u < 0.54:
         return "F"
+    if u < 0.58:
+        return "U"
     if u < 0.75:
         return "z%d" % max(0, len(buf) + r.choice([-2, -1, 0, 1]))
     # string atom: present or absent in the buffer
@@ -96,7 +98,9 @@ def gen_ruleset(r, big=False):
         else:
             kind = r.choice(["n", "n", "n", "g", "g", "p", "gp", "gp"])
         earlier = by_ns.setdefault(ns, [])
-        if kind in ("g", "gp") and r.random() < 0.55:
+        if big and buf and r.random() < 0.5:
+            cond = "z%d" % (len(buf) - 1)                 # holds for the main buffer, fails for its truncations: flips between scans
+        elif kind in ("g", "gp") and r.random() < 0.55:
             cond = r.choice(["T", "z0", "T|F"]) if not buf else gen_cond(r, buf, earlier)   # keep some namespaces satisfied
             if r.random() < 0.5:
                 cond = "T"
@@ -148,12 +152,14 @@ def gen_cases(r, nsets, nbig):
             flagsets = [r.choice(flagsets)]
         for f in flagsets:
             api = r.choice("sssrrd") if f == 0 else r.choice("sssrr")
+            if big and r.random() < 0.7:
+                api = "s"
             chunk = 8 if not big else 6
             sc = list(scripts)
             r.shuffle(sc)
             for o in range(0, len(sc), chunk):
                 bufs = [buf]
-                if r.random() < 0.5:      # history: consecutive scans (same scanner for api=s/d) read different buffers
+                if big or r.random() < 0.5:      # history: consecutive scans (same scanner for api=s/d) read different buffers
                     for _ in range(r.randint(1, 2)):
                         bufs.insert(r.randrange(len(bufs) + 1), other_buf(r, buf))
                 x = r.choice([0, 0, 0, 0, 1, 4, 5])      # unrelated scan flags must not disturb the report-flag default
@@ -241,7 +247,7 @@ def run(tier, replay=None):
     core.proof_coverage(chk, lres, THM)
     b = core.build("asan", harness=["h_cb"])
     r = core.rng("C11")
-    nsets, nbig = (300, 12) if tier == "quick" else (20000, 400)
+    nsets, nbig = (300, 30) if tier == "quick" else (20000, 600)
     cases = gen_cases(r, nsets, nbig)
     if replay:
         cases = [replay["case"]]
